@@ -285,7 +285,7 @@ func (r *Run) writeEvidence(nOb, nDis int, under, trusted, summarised, external,
 	if s := os.Getenv("VERIF_SEED"); s != "" {
 		seed, _ = strconv.Atoi(s)
 	}
-	level := levelOf[r.prop]
+	level := manifestLevel(r.prop)
 	if level == "" {
 		level = "proof"
 	}
@@ -358,4 +358,29 @@ func explanationOf(prop string, nOb, nDis int, undecided []string, sres []*Stand
 		s += fmt.Sprintf(" %d bounded stand-in(s) executed the real code over a stated finite domain; they are labelled bounded and are not counted as obligations.", len(sres))
 	}
 	return s
+}
+
+// manifestLevel: the level claimed for the property in MANIFEST.json (evidence and manifest must agree).
+func manifestLevel(prop string) string {
+	b, err := os.ReadFile(filepath.Join(verifDir, "MANIFEST.json"))
+	if err != nil {
+		return ""
+	}
+	var m struct {
+		Checks []struct {
+			PropertyID   string `json:"property_id"`
+			LevelClaimed struct {
+				Category string `json:"category"`
+			} `json:"level_claimed"`
+		} `json:"checks"`
+	}
+	if json.Unmarshal(b, &m) != nil {
+		return ""
+	}
+	for _, c := range m.Checks {
+		if c.PropertyID == prop {
+			return c.LevelClaimed.Category
+		}
+	}
+	return ""
 }
